@@ -88,6 +88,10 @@ func VDictXMLShift(shift uint32) string {
 	var b bytes.Buffer
 	fmt.Fprintf(&b, "<?xml version=\"1.0\" encoding=\"UTF-8\"?>\n<diameter>\n<application id=\"%d\" type=\"auth\" name=\"Verif\">\n<vendor id=\"%d\" name=\"VerifVendor\"/>\n", VApp, VVendor)
 	fmt.Fprintf(&b, "<command code=\"%d\" short=\"VT\" name=\"Verif-Test\"><request><rule avp=\"V-Unsigned32\" required=\"false\" max=\"1\"/></request><answer><rule avp=\"V-Unsigned32\" required=\"false\" max=\"1\"/></answer></command>\n", VCmd)
+	// command codes that use the top bit of the 24-bit field (the range 3GPP uses for vendor-specific commands)
+	for i, c := range []uint32{8388635, 16777214} {
+		fmt.Fprintf(&b, "<command code=\"%d\" short=\"VH%d\" name=\"Verif-High-%d\"><request><rule avp=\"V-Unsigned32\" required=\"false\" max=\"1\"/></request><answer><rule avp=\"V-Unsigned32\" required=\"false\" max=\"1\"/></answer></command>\n", c, i, i)
+	}
 	for _, d := range VDefs() {
 		v := ""
 		if d.Vendor != 0 {
